@@ -1,7 +1,7 @@
 (* InvCreate.v — exactly which applications CreateValidator accepts, and what acceptance does. *)
 From stdpp Require Import gmap.
 Require Import Model.Base Model.Validate Model.State Model.Staking Model.Slashing Model.Poa.
-Require Import proofs.L1Effects proofs.InvPools.
+Require Import proofs.EvBasic proofs.L1Effects proofs.InvPools.
 Open Scope Z_scope.
 
 Lemma pending_conflict_none_iff val cons l :
